@@ -170,7 +170,7 @@ package meta
 //@   defines containerRemovalChecked() && (result == containerRemoved())
 //@ callrule c06_select_collaborators in selectNFromBucket*
 //@   property C06
-//@   callee (*bbolt.Bucket).*, (*bbolt.Cursor).*, metabase.fillIDTypePrefix, metabase.mkFilterPhysicalPrefix, metabase.inGarbage, metabase.fetchTypeForIDWBuf, metabase.fillIDAttributePrefix, slices.MaxLen, bytes.HasPrefix, (*oid.Address).*
+//@   callee (*bbolt.Bucket).*, (*bbolt.Cursor).*, metabase.fillIDTypePrefix, metabase.mkFilterPhysicalPrefix, metabase.inGarbage, metabase.fetchTypeForIDWBuf, metabase.fillIDAttributePrefix, slices.MaxLen, bytes.HasPrefix, (*id.Address).*
 //@   pureeffect
 //@ func selectNFromBucket
 //@   property C06
@@ -184,3 +184,12 @@ package meta
 //@ func (*DB).listWithCursor
 //@   property C06
 //@   ensures [end_of_listing_iff_nothing_listed] (err != nil) == (len(res0) == 0)
+
+// The body of the listing loop (selectNFromBucket$1, called once per candidate id in ascending
+// order): the iteration is cut short only when the limit is reached, and every id the body
+// went past - listed or skipped as removed/untyped - becomes the cursor position, so that the
+// next page starts strictly after it.
+//@ func selectNFromBucket$1
+//@   property C06
+//@   ensures [stops_only_at_the_limit] !result ==> deref(count) >= limit
+//@   ensures [visited_id_becomes_the_cursor_position] result ==> cursor.lastObjectID == p0
